@@ -116,6 +116,12 @@ func runScenario(c *timerCase, w *vtrace.Writer, seen map[*time.Timer]bool) erro
 					w.Emit(ev, vtrace.Rec{"u": u, "op": st.Op, "value": fmt.Sprint(p)})
 				}
 			}()
+			// a user whose AcquireTimer panicked (double-release scenarios) holds nothing: its steps are skipped
+			if (st.Op == "W" || st.Op == "R" || st.Op == "T" || st.Op == "X") && hold[u] == nil ||
+				st.Op == "Y" && last[u] == nil {
+				w.Emit("Skip", vtrace.Rec{"u": u, "op": st.Op})
+				return
+			}
 			switch st.Op {
 			case "A":
 				d := durOf(st.D)
@@ -270,10 +276,12 @@ func storm500(d time.Duration, np *int, stale, panics *int64) {
 	defer func() { *np = n }()
 	for k := 0; k < 500; k++ {
 		t := timer.AcquireTimer(d)
-		spin := time.Duration(n%40) * 100 * time.Nanosecond // release somewhere around the expiry
-		for s := time.Now(); time.Since(s) < spin; {
+		held := timer.AcquireTimer(longD)                   // a second, never-firing timer: its Put goes to the pool's
+		spin := time.Duration(n%40) * 100 * time.Nanosecond // shared list, where other Ps steal from
+		for s := time.Now(); time.Since(s) < spin; {        // release somewhere around the expiry of t
 		}
 		timer.ReleaseTimer(t)
+		timer.ReleaseTimer(held)
 		t2 := timer.AcquireTimer(longD)
 		for s := time.Now(); time.Since(s) < 2*time.Microsecond; {
 		}
@@ -281,6 +289,17 @@ func storm500(d time.Duration, np *int, stale, panics *int64) {
 		case <-t2.C:
 			atomic.AddInt64(stale, 1)
 		default:
+		}
+		t3 := timer.AcquireTimer(longD)
+		select {
+		case <-t3.C:
+			atomic.AddInt64(stale, 1)
+		default:
+		}
+		if n%5 == 0 { // lose a timer now and then, so that this P's pool runs dry and Get goes stealing
+			t3.Stop()
+		} else {
+			timer.ReleaseTimer(t3)
 		}
 		timer.ReleaseTimer(t2)
 		n++
